@@ -232,6 +232,17 @@ def _reset_process_state():
     if _baseline is None:
         _baseline = ({k: set(vars(m)) for k, m in spaces.items()}, dict(os.environ))
         return
+    # torch / numpy process- or thread-wide switches a library call might flip
+    try:
+        torch.set_flush_denormal(False)      # per-thread CPU state (MXCSR)
+        if torch.get_num_threads() != 1:
+            torch.set_num_threads(1)
+        if torch.are_deterministic_algorithms_enabled():
+            torch.use_deterministic_algorithms(False)
+        if not torch.backends.mkldnn.enabled:
+            torch.backends.mkldnn.enabled = True
+    except Exception:  # noqa
+        pass
     base, envb = _baseline
     for k, m in spaces.items():
         for name in set(vars(m)) - base[k]:
